@@ -310,6 +310,7 @@ def is_subseq(a, b):
 
 # ----------------------------------------------------------------------------- projections of real models
 
+_DEFAULT_EPS = re.compile(r"^EPS_\d+$")
 _DEFAULT = re.compile(r"^(THETA_\d+|OMEGA_\d+_\d+|SIGMA_\d+_\d+)_*$")
 
 
@@ -376,7 +377,10 @@ def same_rvs(x, y):
     if len(x) != len(y):
         return False
     for a, b in zip(x, y):
-        if a["etas"] != b["etas"] or a["level"] != b["level"] or a["same"] != b["same"] or not same_params(a["entries"], b["entries"]):
+        names_equal = a["etas"] == b["etas"]
+        if not names_equal and a["level"] == "RUV" and len(a["etas"]) == len(b["etas"]) and all(_DEFAULT_EPS.match(n) for n in a["etas"] + b["etas"]):
+            names_equal = True  # EPS_n is positional (no $ABBR carries epsilon names): renumbered after a removal
+        if not names_equal or a["level"] != b["level"] or a["same"] != b["same"] or not same_params(a["entries"], b["entries"]):
             return False
     return True
 
